@@ -210,3 +210,12 @@ Theorem C03_final_vs_text_combined_and_warm : forall s,
   attr_of_final_events evs (source s) c = WarmCombMain.reference2 s c /\ WarmCombDefs.Sound2 st' s.
 Proof. exact WarmCombMain.warm_final2. Qed.
 Print Assumptions C03_final_vs_text_combined_and_warm.
+
+From RS Require Proofs.WarmCombC03.
+Theorem C03_checker_combined_leaves_and_warm_caches : forall s ws,
+  ColdCache.ids_distinct s -> Checkers.ChkHist.k2_shape s = false ->
+  CombLeafTree.rshape2 (ColdCache.uncache s) = true -> treeA s = true ->
+  WarmCombBounds.tiny2 (ColdCache.uncache s) = true ->
+  chk_C03 s (api_tree s ws) = 0 \/ (k1_shape s = true /\ chk_C03 s (api_tree s ws) = 51).
+Proof. exact WarmCombC03.C03_warm_comb_checker_any. Qed.
+Print Assumptions C03_checker_combined_leaves_and_warm_caches.
